@@ -154,6 +154,26 @@ def r3_parser(run, F):
             ok = len(negs) == 1 and cons == ["Expression::SignedIntegerLiteral"]
     run.ob("R3-MINUS-FOLDING", "SignedIntegerLiteral if value > 0", ok, F.where(u, mu),
            "-LITERAL folds into a negative SignedIntegerLiteral only for signed literals with value > 0")
+    # -2^127 is i128::MIN: its magnitude is not a signed literal, so it needs its own fold (else the linter sees 2^127: false L1142)
+    okm = False
+    for a in mu["arms"]:
+        if hirq.pat_key(a["pat"]) != "Expression::BitIntegerLiteral" or "guard" not in a:
+            continue
+        eqs = [n for n in walk(a["guard"]) if n.get("k") == "Binary" and n.get("op") == "Eq" and hirq.local_name_of(n["lhs"]) == "value"]
+        is_2_127 = False
+        for n in eqs:
+            r = hirq.unwrap_trivial(n["rhs"])
+            if r.get("k") == "Binary" and r.get("op") == "Shl" and hirq.unwrap_trivial(r["lhs"]).get("v") == 1 and hirq.unwrap_trivial(r["rhs"]).get("v") == 127:
+                is_2_127 = True
+            if r.get("k") == "Lit" and r.get("v") == 1 << 127:
+                is_2_127 = True
+        cons = [hirq.short(p) for p, _ in hirq.constructs(a["body"]) if hirq.short(p).startswith("Expression::")]
+        mins = [n for n in walk(a["body"]) if n.get("k") == "Path" and str(n.get("res", "")).endswith("<impl i128>::MIN")]
+        signed_only = any((hirq.callee(c) or "").endswith("ValueType::is_signed") for c in hirq.calls(a["guard"]))
+        okm = okm or (is_2_127 and cons == ["Expression::SignedIntegerLiteral"] and bool(mins) and signed_only)
+    run.ob("R3-MINUS-FOLDING", "-2^127 is i128::MIN", okm, F.where(u, mu),
+           "the negation of a literal of magnitude 2^127 (signed or untyped) folds into SignedIntegerLiteral(i128::MIN); left as Unary(Negative) of a "
+           "bit literal the in-range value i128::MIN raises L1142")
     other = [a for a in mu["arms"] if hirq.is_catchall(a["pat"])]
     ok2 = len(other) == 1 and "UnaryOp::Negative" in [hirq.short(p) for p, _ in hirq.constructs(other[0]["body"])]
     run.ob("R3-MINUS-FOLDING", "otherwise Unary Negative", ok2, F.where(u, mu), "everything else becomes Unary{Negative}")
